@@ -144,3 +144,43 @@ Theorem C16_stop_file_row_placement_is_code :
   LG.gen_node_self_owner_is_current = true /\ LG.gen_node_self_names_current = true /\ LG.gen_node_self_after_rows = true.
 Proof. exact gen_node_row_placement_spec. Qed.
 Print Assumptions C16_stop_file_row_placement_is_code.
+
+(* ---- the COLLECTION loaders are the code (tools/gen_coll_loaders.py -> gen/CollLoaders.v, Proofs/CollLoadersTie.v):
+   each of getAgencies / getServices / getNodes (collection file) / getDataSources / getLines / getPaths / getScenarios,
+   regenerated from the current source as a statement tree - frame (clear, open, failed-open block, try / handlers, loop,
+   close, return) and loop body (which capnp getter feeds which member, which look-ups throw and which skip, which vectors are
+   fresh, emplace / operator[]) - and run by the interpreters of CollCode.v from ANY previous contents of the map, of the
+   C++ vectors and of `ret`, gives exactly the model's loader *)
+Require TrV.CollCode TrV.gen.CollLoaders.
+From TrV Require Proofs.CollLoadersTie.
+Module COLL.
+  Import TrV.Loader2 TrV.CollCode.
+  Module CL := TrV.gen.CollLoaders.
+  Theorem C16_collection_loaders_are_code :
+    (forall f s0 r0, run_simple CAgencies am_id am_rest_ok CL.gen_agencies_loader f s0 r0 = Some (load_agencies f)) /\
+    (forall f s0 r0, run_simple CServices vm_id vm_rest_ok CL.gen_services_loader f s0 r0 = Some (load_services f)) /\
+    (forall f s0 r0, run_simple CNodes (fun m : uref => m) (fun _ => true) CL.gen_nodes_loader f s0 r0 = Some (load_nodecoll f)) /\
+    (forall f s0 r0, option_map snd (run_simple CDataSources (fun m : uref => m) (fun _ => true) CL.gen_datasources_loader f s0 r0)
+                     = Some (load_datasources f)) /\
+    (forall agencies f s0 r0, run_lines CL.gen_lines_loader agencies f s0 r0 = Some (load_lines agencies f)) /\
+    (forall lines nodes f s0 vn0 vz0 r0, run_paths CL.gen_paths_loader lines nodes f s0 vn0 vz0 r0 = Some (load_paths lines nodes f)) /\
+    (forall e f s0 vs0 r0, run_scenarios CL.gen_scenarios_loader e f s0 vs0 r0 = Some (load_scenarios e f)).
+  Proof. exact TrV.Proofs.CollLoadersTie.coll_loaders_are_code. Qed.
+  Print Assumptions C16_collection_loaders_are_code.
+
+  (* entry by entry: the model's step functions are the interpretation of the regenerated loop bodies *)
+  Theorem C16_collection_entries_are_code :
+    (forall s m, agency_step s m = simple_step (am_id m) (am_rest_ok m) (lc_item CL.gen_agencies_loader) s) /\
+    (forall s m, service_step s m = simple_step (vm_id m) (vm_rest_ok m) (lc_item CL.gen_services_loader) s) /\
+    (forall s m, nodecoll_step s m = simple_step m true (lc_item CL.gen_nodes_loader) s) /\
+    (forall s m, nodecoll_step s m = simple_step m true (lc_item CL.gen_datasources_loader) s) /\
+    (forall agencies s m, line_step agencies s m = line_item (lc_item CL.gen_lines_loader) agencies s m) /\
+    (forall lines nodes st m,
+       ps_map (fst (path_item (lc_item CL.gen_paths_loader) lines nodes st m)) = fst (path_step lines nodes (ps_map st) m) /\
+       snd (path_item (lc_item CL.gen_paths_loader) lines nodes st m) = snd (path_step lines nodes (ps_map st) m)) /\
+    (forall e vs s m,
+       snd (fst (scen_item (lc_item CL.gen_scenarios_loader) e (vs, s) m)) = fst (scenario_step e s m) /\
+       snd (scen_item (lc_item CL.gen_scenarios_loader) e (vs, s) m) = snd (scenario_step e s m)).
+  Proof. exact TrV.Proofs.CollLoadersTie.coll_entries_are_code. Qed.
+  Print Assumptions C16_collection_entries_are_code.
+End COLL.
